@@ -125,6 +125,8 @@ pub fn expectation(rootfd: i32, ctx: &RunCtx, path: &str, nosym: bool) -> Result
 }
 
 pub struct H {
+    pub umask: u32,
+    pub kernel_backend: bool,
     pub pre: Vec<String>,
     pub expect: Vec<Option<Result<(String, Vec<String>), String>>>,
     pub found: Vec<(usize, String, String)>,
@@ -157,7 +159,16 @@ impl Hooks for H {
         let removed: Vec<&String> = self.pre.iter().filter(|l| !post.contains(l)).collect();
         let exp = self.expect.get(rec.idx).cloned().flatten();
         let bad_mode = mode & !0o1777 != 0;
-        let mut fail = |c: &str, d: String| self.found.push((rec.idx, c.to_string(), d));
+        let links = links_followed(ctx.out, rec);
+        let kb = self.kernel_backend;
+        let why_all = format!("{exp:?}");
+        let ridx = rec.idx;
+        let mut fail = |c: &str, d: String| {
+            let probe = format!("{d} {why_all}");
+            if let Some(c2) = eloop_triage(c, &probe, kb, links) {
+                self.found.push((ridx, c2, d))
+            }
+        };
         // documented divergence: the emulated resolver's symlink budget is
         // larger than the kernel's; everything else about such a call follows from it
         if let (Some(Err(why)), true) = (&exp, rec.outcome.is_ok()) {
@@ -195,7 +206,20 @@ impl Hooks for H {
                     _ => {}
                 }
                 // exactly the missing directories, with the requested mode
-                let want_mode = mode & !0o022 & 0o1777;
+                let want_mode = mode & !self.umask & 0o1777;
+                // setgid inheritance: a directory created below a setgid directory gets the bit
+                let parent_sgid = match &exp {
+                    Some(Ok((label, _))) => self
+                        .pre
+                        .iter()
+                        .find(|l| l.starts_with(&format!("D {label} mode=")))
+                        .and_then(|l| l.split("mode=").nth(1))
+                        .and_then(|x| x.split(' ').next())
+                        .and_then(|x| u32::from_str_radix(x, 8).ok())
+                        .map(|m| m & 0o2000 != 0)
+                        .unwrap_or(false),
+                    _ => false,
+                };
                 let mut want: Vec<String> = Vec::new();
                 for c in &chain {
                     want.push(format!("D {c} mode="));
@@ -207,9 +231,9 @@ impl Hooks for H {
                     } else {
                         // mode / ownership
                         let m = a.split("mode=").nth(1).and_then(|x| x.split(' ').next()).and_then(|x| u32::from_str_radix(x, 8).ok()).unwrap_or(0);
-                        let m_nosgid = m & !0o2000;
-                        if m_nosgid != want_mode && !(self.parent_setgid && m == want_mode | 0o2000) {
-                            fail("wrong-mode", format!("created {a:?} but requested mode {mode:o} with umask 022 gives {want_mode:o}"));
+                        let want = if parent_sgid { want_mode | 0o2000 } else { want_mode };
+                        if m != want {
+                            fail("wrong-mode", format!("created {a:?} but requested mode {mode:o} with umask {:o}{} gives {want:o}", self.umask, if parent_sgid { " below a setgid directory" } else { "" }));
                         }
                     }
                 }
@@ -286,7 +310,7 @@ pub fn gen_seq_case(seed: u64, idx: u64, uni: &UniCfg) -> Case {
                 };
                 p = if p.is_empty() { tok } else { format!("{p}/{tok}") };
             }
-            let mode = *rng.pick(&[0o755u32, 0o755, 0o700, 0o711, 0o1777, 0o777, 0o2755, 0o4755, 0o10755, 0o40755]);
+            let mode = *rng.pick(&[0o755u32, 0o755, 0o700, 0o711, 0o1777, 0o777, 0o555, 0o500, 0o000, 0o1555, 0o444, 0o311, 0o2755, 0o4755, 0o10755]);
             let mut s = OpSpec::new(Op::MkdirAll { path: p, mode });
             if rng.chance(1, 3) {
                 s.facade = Facade::C;
@@ -298,6 +322,7 @@ pub fn gen_seq_case(seed: u64, idx: u64, uni: &UniCfg) -> Case {
         .collect();
     c.world = Some(world);
     c.jobs = vec![ops];
+    c.umask = *rng.pick(&[0o022u32, 0o022, 0, 0o077, 0o027, 0o777]);
     c
 }
 
@@ -553,7 +578,7 @@ pub fn run(u: &mut Universe, b: &Batch, st: &mut Stats) {
 
 fn run_seq(u: &mut Universe, case: &Case, st: &mut Stats, sample: bool) -> bool {
     let parent_setgid = false;
-    let mut h = H { pre: Vec::new(), expect: Vec::new(), found: Vec::new(), parent_setgid };
+    let mut h = H { umask: case.umask, kernel_backend: !case.uni.no_openat2, pre: Vec::new(), expect: Vec::new(), found: Vec::new(), parent_setgid };
     let mut tries = 0;
     let out = loop {
         h.found.clear();
